@@ -42,6 +42,7 @@ fn cfg_strategy() -> impl Strategy<Value = SutConfig> {
             cardano_database,
             cardano_transactions: false,
             cardano_stake_distribution,
+            zero_stake_party: false,
         })
 }
 
@@ -114,7 +115,7 @@ fn case_strategy() -> impl Strategy<Value = Case> {
 /// party 1 the peer under test, its submission before or after party 0's own.
 fn product() -> Vec<Case> {
     let mut v = vec![];
-    let cfg = SutConfig { k: 5, m: 100, phi_pct: 95, n_signers: 3, cardano_database: true, cardano_transactions: false, cardano_stake_distribution: false };
+    let cfg = SutConfig { k: 5, m: 100, phi_pct: 95, n_signers: 3, cardano_database: true, cardano_transactions: false, cardano_stake_distribution: false, zero_stake_party: false };
     let honest = |mask: u16, inlet: Inlet| Op::Sign(SignOp { mask, target: Target::Current(0), flavour: Flavour::Valid, inlet, label: Label::Own, source: Source::Own, idx: IdxList::Matching });
     for label in [Label::Own, Label::Other(0), Label::Other(40000), Label::Unregistered] {
         for source in [Source::Own, Source::CopyOf(0), Source::CopyOf(40000)] {
@@ -157,7 +158,7 @@ fn product() -> Vec<Case> {
     // reaches the quorum): the next cycle must certify
     // (the quorum is swept: for some k the halves stay below it while the full signatures reach it)
     for (k, n) in (50u64..=95).step_by(5).flat_map(|k| [(k, 3u8), (k, 5u8)]) {
-        let cfg = SutConfig { k, m: 100, phi_pct: 65, n_signers: n, cardano_database: false, cardano_transactions: false, cardano_stake_distribution: false };
+        let cfg = SutConfig { k, m: 100, phi_pct: 65, n_signers: n, cardano_database: false, cardano_transactions: false, cardano_stake_distribution: false, zero_stake_party: false };
         let full = (1u16 << n) - 1;
         let sub = |idx: IdxList| Op::Sign(SignOp { mask: full, target: Target::Current(0), flavour: Flavour::Valid, inlet: Inlet::Http, label: Label::Own, source: Source::Own, idx });
         let ops = vec![
@@ -182,7 +183,7 @@ pub const KEY_DISPLACED: &str = "honest-buffered-contribution-displaced";
 /// another message under party 0's name (it authenticates against the message the sender states); the open message
 /// is created: party 0 has no row
 fn displacement_witness() -> Case {
-    let cfg = SutConfig { k: 5, m: 100, phi_pct: 95, n_signers: 3, cardano_database: true, cardano_transactions: false, cardano_stake_distribution: false };
+    let cfg = SutConfig { k: 5, m: 100, phi_pct: 95, n_signers: 3, cardano_database: true, cardano_transactions: false, cardano_stake_distribution: false, zero_stake_party: false };
     let early = |mask: u16, flavour: Flavour, label: Label, source: Source| Op::Sign(SignOp { mask, target: Target::NotYetOpen(0), flavour, inlet: Inlet::Http, label, source, idx: IdxList::Matching });
     Case {
         cfg,
